@@ -34,11 +34,14 @@ def derivation_tree(g, dump, tokens):
     toks = list(tokens)
     memo = {}
 
+    budget = [400000]
+
     def nt(n, i, j, depth):
         key = (n, i, j)
         if key in memo:
             return memo[key]
-        if depth > 12:
+        budget[0] -= 1
+        if depth > 12 or budget[0] < 0:
             return None
         memo[key] = None  # cut cycles
         for alt in rules[n]:
@@ -220,6 +223,12 @@ def run(rep, tier, seed):
 def confirm_sentence(rep, g, r, word, base, out):
     t = derivation_tree(g, r.dump, word)
     if t is None:
+        # the bounded-language oracle proposed a sentence the real parser rejects and no derivation tree was found
+        # within the search budget: not reported as a violation (nothing verified), but never silent
+        msg = "rejected word proposed as a sentence, no derivation tree found: %s | %r | table %s" % (
+            GR.render(word), r.case.grammar, r.case.table)
+        rep.notes.append(msg)
+        print("NOTE: " + msg[:400])
         return False
     kinds = LC.letters_to_kinds(word)
     body = LC.HEADER + "Definition g := %s.\nEval vm_compute in [derivation_b g (%s) %s].\n" % (
